@@ -392,6 +392,25 @@ def src(a):
     raise ValueError(k)
 
 
+def full_deep(a):
+    """Fully parenthesised rendering that also goes into call arguments (the operators inside a call are parsed by the same
+    grammar: the value of a call does not change when its arguments are parenthesised the way they are parsed)."""
+    k = a[0]
+    if k == "bin":
+        if a[1] == "~":
+            return f"{full_deep(a[2])} ~ {full_deep(a[3])}"
+        return f"({full_deep(a[2])} {a[1]} {full_deep(a[3])})"
+    if k == "un":
+        return f"({a[1]}{full_deep(a[2])})"
+    if k == "grp":
+        return f"({full_deep(a[1])})"
+    if k == "call":
+        return f"{src(a[1])}({', '.join(full_deep(x) for x in a[2])})"
+    if k == "assign":
+        return f"{src(a[1])}={full_deep(a[2])}"
+    return src(a)
+
+
 def full(a):
     """Fully parenthesised formula-level rendering; call arguments keep their own source."""
     k = a[0]
